@@ -16,6 +16,15 @@ def run(ctx, n_cases, prefixes, seed_offset=0, max_len=900, kinds=None):
         fs = c['fs']
         boundary = int([0, 1, 5, fs // 4, fs // 2][int(rng.integers(0, 5))])
         fk = [None, {'n_cycles': 3}, {'n_cycles': int(rng.choice([2, 4, 5]))}, {'n_seconds': float(rng.choice([2.0, 3.0])) / c['f_range'][0]}][(i // 2) % 4]
+        if i % 6 == 5 and len(c['q']) and c['q'].max() > c['q'].min():
+            # raw converter counts: the same waveform as unsigned 8-bit counts (0 .. 255) or as 16-bit counts reaching the negative rail
+            x = (c['q'] - c['q'].min()) / float(c['q'].max() - c['q'].min())
+            if (i // 6) % 2 == 0:
+                cnt, dt = np.round(x * 255).astype(np.int64), np.uint8
+            else:
+                cnt, dt = np.round(x * 65535).astype(np.int64) - 32768, np.int16
+            c = dict(c, q=cnt, e=0, sig=cnt.astype(dt), kind=c['kind'] + ' as ' + np.dtype(dt).name + ' counts')
+            cases[i] = c
         recs.append(record.record_find_extrema(c, first, pad, boundary, fk))
         meta.append({'first': first, 'pad': pad, 'boundary': boundary, 'filter_kwargs': fk})
     verdicts = tv.validate(ctx, 'Trace_Extrema', recs, label='Trace_Extrema')
